@@ -569,14 +569,18 @@ def check_instance(c, spec, rng, nq, fixed_queries=None, solve=False, tag="rando
     pending = []
     lines = []
     vectors = []
+    integ = bool(spec.get("integrate_states"))
     if solve:
         with quiet_fd():
             ok = pr.optimize(preprocessing=False, postprocessing=False)
         if not ok:
             c.hit("solve-failed")
             return lines, pending
-        c.hit("at-solution")
+        c.hit("at-solution" + ("/integrated" if integ else ""))
         vectors.append(("solution", np.array(pr.solver_output, dtype=float), None))
+        if integ:
+            oracle_objective(c, pr, info, [pr.extract_results(m) for m in range(spec["E"])])
+            vectors.append(("probe", probe_vector(rng, pr.solver_input.size1(), True) / 8.0, None))
     else:
         pr.transcribe()
         N = pr.solver_input.size1()
@@ -591,7 +595,11 @@ def check_instance(c, spec, rng, nq, fixed_queries=None, solve=False, tag="rando
         for m in range(spec["E"]):
             lay = layout(pr, info, m)
             # decode check: extract_results == nominal * X[idx] (ties the model input to the results)
+            if integ:
+                oracle_integration(c, pr, info, m, results[m], x, lay)
             for v in info.sv:
+                if integ and v in spec["states"] + spec["algs"]:
+                    continue  # only the initial value is a decision variable: see oracle_integration
                 dec = float(pr.variable_nominal(v)) * x[lay[v]]
                 if not close_list(dec, results[m][v]):
                     c.fail("extract_results differs from nominal * X[indices]", {"spec": spec, "var": v, "m": m},
@@ -603,7 +611,8 @@ def check_instance(c, spec, rng, nq, fixed_queries=None, solve=False, tag="rando
             vals = c15_synth.evalX(pr, exprs, x) if exprs else []
             it = iter(vals)
             impl_vals = [("raise", r[1]) if r[0] == "raise" else ("ok", next(it)) for r in impl]
-            lines.append({"op": "acc", "prob": model_prob(pr, info, m, x, lay), "q": [wire_query(q) for q in qs]})
+            if not integ:  # the Lean model covers collocated transcriptions only
+                lines.append({"op": "acc", "prob": model_prob(pr, info, m, x, lay), "q": [wire_query(q) for q in qs]})
             # map_path_expression
             es = gen_exprs(rng, info, 3)
             mimpl = [call(lambda e=e: pr.map_path_expression(casadi_expr(pr, info, e), m)) for e in es]
@@ -611,12 +620,102 @@ def check_instance(c, spec, rng, nq, fixed_queries=None, solve=False, tag="rando
             mvals = c15_synth.evalX(pr, mex, x) if mex else []
             it2 = iter(mvals)
             mimpl_vals = [("raise", r[1]) if r[0] == "raise" else ("ok", next(it2)) for r in mimpl]
-            lines.append({"op": "map", "mp": map_model_input(pr, info, m, x, lay),
-                          "e": [{"const": fr(e["const"]), "terms": [{"c": fr(t["c"]), "s": t["s"]} for t in e["terms"]]}
-                                for e in es]})
+            if not integ:
+                lines.append({"op": "map", "mp": map_model_input(pr, info, m, x, lay),
+                              "e": [{"const": fr(e["const"]), "terms": [{"c": fr(t["c"]), "s": t["s"]} for t in e["terms"]]}
+                                    for e in es]})
             pending.append(dict(spec=spec, info=info, m=m, x=x, qs=qs, impl=impl_vals, oracle=o, es=es,
-                                mimpl=mimpl_vals, vk=vk, tag=tag))
+                                mimpl=mimpl_vals, vk=vk, tag=tag, nomodel=integ))
     return lines, pending
+
+
+def grid_values(info, res, v):
+    """a variable's extracted result at the collocation times (own grids interpolated by the mode)"""
+    g = info.spec["times"]
+    ts = info.times(v)
+    r = list(map(float, res[v]))
+    if len(ts) == len(g):
+        return r
+    return [o_interp(info.mode(v), ts, r, t) for t in g]
+
+
+def oracle_integration(c, pr, info, m, res, x, lay):
+    """integrate_states = True: the extracted trajectory of every state is the theta = 1 integration
+    (in physical units) of the synthetic DAE  x' = -a x + sum(u) + sum(c)  from its decoded initial value,
+    algebraic state k = state (k mod #states) + first parameter"""
+    spec = info.spec
+    g = spec["times"]
+    a = spec["dyn"]["a"]
+    drive = np.zeros(len(g))
+    for ctl in spec["controls"]:
+        drive += np.array(grid_values(info, res, ctl["name"]))
+    for ci in spec["cins"]:
+        drive += np.array(list(map(float, res[ci["name"]])))
+    p0 = spec["params"][0]["values"][m] if spec["params"] else 0.0
+    xs = {}
+    for v in spec["states"]:
+        x0 = float(pr.variable_nominal(v)) * float(x[lay[v][0]])
+        ref = [x0]
+        for i in range(1, len(g)):
+            dt = g[i] - g[i - 1]
+            ref.append((ref[-1] + dt * drive[i]) / (1 + a * dt))
+        xs[v] = ref
+        c.hit("integrated:trajectory")
+        if not close_list(ref, res[v], 1e-7):
+            c.fail("integrate_states: extract_results of a state is not the integrated trajectory in physical units",
+                   {"spec": spec, "member": m, "var": v, "x": x}, {"expected": ref, "results": res[v]})
+    for k, z in enumerate(spec["algs"]):
+        src = xs[spec["states"][k % len(spec["states"])]]
+        ref = [float(pr.variable_nominal(z)) * float(x[lay[z][0]])] + [q + p0 for q in src[1:]]
+        if not close_list(ref, res[z], 1e-7):
+            c.fail("integrate_states: extract_results of an algebraic state is not the integrated trajectory",
+                   {"spec": spec, "member": m, "var": z, "x": x}, {"expected": ref, "results": res[z]})
+
+
+def oracle_objective(c, pr, info, results):
+    """the transcribed objective at the solution equals the objective formula on extract_results()"""
+    spec = info.spec
+    obj = spec.get("objective")
+    if not obj:
+        return
+    tot = 0.0
+    for m in range(spec["E"]):
+        o = Oracle(pr, info, m, results[m])
+        f = sum(cf * o.state_at(v, t) for v, t, cf in obj["point"])
+        f += sum(cf * sum(grid_values(info, results[m], v)) for v, cf in obj["path"])
+        tot += float(pr.ensemble_member_probability(m)) * f
+    c.hit("integrated:objective")
+    if not close(tot, pr.objective_value, 1e-6):
+        c.fail("the transcribed objective differs from the objective formula evaluated on extract_results()",
+               {"spec": spec}, {"objective_value": pr.objective_value, "formula_on_results": tot})
+
+
+def gen_spec_integrated(rng):
+    """single shooting instances: all states / algebraic states integrated, controls (also on own grids)
+    discretised; nominals != 1; objective with point terms on controls and a path term on states"""
+    while True:
+        spec = gen_spec(rng)
+        if spec["controls"] and not spec["path_vars"]:
+            break
+    spec["integrate_states"] = True
+    spec["E"] = min(spec["E"], 2)
+    E = spec["E"]
+    for lst in (spec["cins"], spec["params"]):
+        for d in lst:
+            d["values"] = d["values"][:E]
+    # pinned initial values only (a pinned initial derivative would over-determine the shooting problem)
+    spec["history"] = [{v: {"times": h["times"][-1:], "values": h["values"][-1:]}
+                        for v, h in hm.items() if v in spec["states"]} for hm in spec["history"][:E]]
+    for v in spec["states"] + [c_["name"] for c_ in spec["controls"]]:
+        if rng.random() < 0.7:
+            spec["nominal"][v] = rng.choice([10.0, 0.5, 4.0, 100.0])
+    t0, tf = spec["times"][0], spec["times"][-1]
+    names = [c_["name"] for c_ in spec["controls"]]
+    alias = [a["name"] for a in spec["aliases"] if a["of"] in names]
+    point = [[rng.choice(names + alias), rng.choice([t0, t0, tf, (t0 + tf) / 2]), dy(rng, -1, 1) or 0.5] for _ in range(2)]
+    path = [[v, rng.choice([1.0, -0.5, 0.25])] for v in spec["states"]]
+    spec["objective"] = {"point": point, "path": path}
+    return spec
 
 
 def judge(c, item, macc, mmap):
@@ -714,9 +813,14 @@ def run_batch(c, batch):
         lines += ls
         pend += ps
     outs = c.model(lines) if lines else []
-    for k, item in enumerate(pend):
-        macc = outs[2 * k] if outs is not None else None
-        mmap = outs[2 * k + 1] if outs is not None else None
+    pos = 0
+    for item in pend:
+        if item.get("nomodel"):
+            judge(c, item, None, None)
+            continue
+        macc = outs[pos] if outs is not None else None
+        mmap = outs[pos + 1] if outs is not None else None
+        pos += 2
         if macc == "bad-op" or mmap == "bad-op":
             c.broken.append(("model driver", "bad-op for an instance of the %s stream" % item["tag"]))
             macc = mmap = None
@@ -777,7 +881,8 @@ def run(c):
         "`parameters` and the alias map as given inputs; the decision-vector layout is read through `state_vector`",
         "values compared with 1e-9 relative tolerance (binary64 vs exact rationals); knot times and raise/NaN classes exactly",
         "history series end at t0 (the code's `[:-1]` convention); every variable of the decision vector has >= 2 time stamps",
-        "`integrate_states = True` (single shooting) is outside the model",
+        "`integrate_states = True` (single shooting) is outside the Lean model; such instances are judged by the plain-Python "
+        "oracle only (accessors vs extract_results, extract_results vs re-integration of the synthetic DAE, objective vs results)",
     ]
     from .translate_c15 import gen_accessors
 
@@ -803,6 +908,21 @@ def run(c):
         if len(batch) >= 40:
             run_batch(c, batch)
             batch = []
+    run_batch(c, batch)
+    # integrate_states = True (single shooting): oracle level only (the Lean model covers collocation)
+    batch = []
+    for i in range(c.n(6, 90)):
+        spec = gen_spec_integrated(rng)
+        try:
+            batch.append(check_instance(c, spec, rng, nq, solve=True, tag="integrated"))
+        except Exception as e:
+            c.fail("integrate_states: optimize() with point terms state_at(<control>, t) in the objective raised %s"
+                   % type(e).__name__, {"spec": spec}, str(e)[:300])
+            spec = dict(spec, objective={"point": [], "path": spec["objective"]["path"]})
+            try:  # the accessors themselves are still judged
+                batch.append(check_instance(c, spec, rng, nq, solve=True, tag="integrated"))
+            except Exception as e2:
+                c.fail("integrate_states: optimize() raised %s" % type(e2).__name__, {"spec": spec}, str(e2)[:300])
     run_batch(c, batch)
     c.notes.append("every accessor call is judged twice: by the plain-Python re-statement of the property on "
                    "extract_results() (failure = VIOLATION) and against the Lean model (disagreement = model no longer "
